@@ -13,7 +13,7 @@ import (
 
 func init() {
 	register(&Property{
-		ID: "C11",
+		ID:          "C11",
 		Explanation: "Static lockset and lock-order analysis over every call path from the concurrent entry points (exported methods of *fs.STFS and *fs.File, and every goroutine they start), context-sensitive on the set of mutexes held: (lockset) for each field of shared mutable state (File.{readOpReader,readOpWriter,writeBuf,cleanWriteBuf,info}, FileInfo.{size,name} written through f.info, TapeManager.{reader,readerIsRegular,closer,overwrote}) every access must share at least one held mutex with every write of that field (Eraser's discipline, decided statically; the drive mutex handed out by GetWriter/GetReader counts as held until Close*); (lock-order) the acquired-while-held graph over ioLock, diskOperationLock[read ops], diskOperationLock[write ops], readerLock, physicalLock - plus the wait-for edge of a goroutine that writes into an io.Pipe whose reader is drained under ioLock while it holds other mutexes - must be acyclic and contain the documented order; (single-connection) the SQLite handle is limited to one connection in the loaded build variant; (shared-lock) every file handle is created with the filesystem's own ioLock.",
 		NotDecided:  "The cached root of the index store (MetadataPersister.root/rootIsEmptyString): its writes are all init-once (guarded by root==\"\") or happen in Initialize's no-root branch, which no rule in reach separates from steady-state use, so tracking it raised alarms for which no schedule can be shown; a dynamic race detector is the right tool for it. Linearizability, completion under all interleavings beyond lock-order cycles, races inside dependencies (sqlite, afero), races on FileInfo values already returned to callers.",
 		Assumptions: []string{"sync.Mutex semantics", "BackendConfig callbacks are the TapeManager methods (C10.backend-binding)", "user callbacks (onHeader) take no STFS lock"},
@@ -58,20 +58,20 @@ type accessRec struct {
 }
 
 type conc struct {
-	c        *Ctx
-	s        *sinkInfo
-	ioS, ioF, disk, readerL, phys *types.Var
+	c                                        *Ctx
+	s                                        *sinkInfo
+	ioS, ioF, disk, readerL, phys            *types.Var
 	readOpsS, readOpsF, writeOpsS, writeOpsF *types.Var
-	tracked  map[*types.Var]bool
-	tmGetWriter, tmGetReader, tmClose *FuncInfo
-	fetch    *FuncInfo
-	memo     map[string]bool
-	accesses []accessRec
-	edges    map[[2]lockID]string
-	retHeld  map[*FuncInfo]uint8
-	pipeHeld map[uint8]string // held sets at recovery.Fetch calls inside goroutines that feed a pipe
-	curRoot  string
-	depth    int
+	tracked                                  map[*types.Var]bool
+	tmGetWriter, tmGetReader, tmClose        *FuncInfo
+	fetch                                    *FuncInfo
+	memo                                     map[string]bool
+	accesses                                 []accessRec
+	edges                                    map[[2]lockID]string
+	retHeld                                  map[*FuncInfo]uint8
+	pipeHeld                                 map[uint8]string // held sets at recovery.Fetch calls inside goroutines that feed a pipe
+	curRoot                                  string
+	depth                                    int
 }
 
 func (k *conc) lockOf(info *types.Info, x ast.Expr, ops int) (lockID, bool) {
